@@ -478,7 +478,13 @@ func pTighten(args []string) string {
 	}
 	if newEnd > uint64(me.limit+1)*blk {
 		// a valid partition ends beyond the ME region: outside the property's hypotheses
-		// (the Go code panics in buf[bufOffset:]; recorded by the model as Panic)
+		// (the Go code panics in buf[bufOffset:]; recorded by the model as Panic).  The one thing
+		// the statement still excludes: reporting success, i.e. a boundary that is not at or after
+		// the end of the last partition (a partition that is not inside before cannot be inside
+		// after, the ME region only shrinks).
+		if res == "ok" {
+			return "FAIL tightened-although-a-partition-ends-beyond-the-ME-region"
+		}
 		return "skip"
 	}
 	tail := img[newEnd : (int(me.limit)+1)*blk]
@@ -561,6 +567,20 @@ func pTighten(args []string) string {
 	out2, rs2 := save(f1)
 	if rs2 != "ok" || !bytes.Equal(out2, out) {
 		return "FAIL twice-differs-from-once"
+	}
+	// twice = once also without a save in between (Assemble refreshes the region buffers, a
+	// second run right after the first sees the tree exactly as the first one left it)
+	if f2, _ := fresh(); f2 != nil {
+		if ra, _ := tighten(f2); ra != "ok" {
+			return "FAIL tighten-of-a-fresh-parse-" + ra
+		}
+		if rb, _ := tighten(f2); rb != "ok" {
+			return "FAIL second-tighten-without-save-" + rb
+		}
+		o2, rs := save(f2)
+		if rs != "ok" || !bytes.Equal(o2, out) {
+			return "FAIL twice-without-save-differs-from-once"
+		}
 	}
 	// and on the saved file, when the partition table itself lies below the new boundary
 	if hasFPT && uint64(tableEnd) <= newSize && d2.slots[1].valid() {
@@ -690,6 +710,31 @@ func fill(r *Rng, b []byte, mode int, pol byte) {
 	rnd(b[m : m+1+r.Intn(24)])
 }
 
+// spice gives a partition entry (32 bytes: Name, Owner, Offset, Length, Reserved[3], Flags) the
+// field values real tables carry next to the random ones: flags with the 0xFF "not in use" top
+// byte, all-zero and all-one flags, well-known and blank names.  fiano looks at Offset and
+// Length only.
+func spice(r *Rng, e []byte) {
+	switch r.Intn(8) {
+	case 0:
+		e[31] = 0xFF
+	case 1:
+		binary.LittleEndian.PutUint32(e[28:], 0xFFFFFFFF)
+	case 2:
+		binary.LittleEndian.PutUint32(e[28:], 0)
+	case 3:
+		e[31] = 0x7F
+	}
+	switch r.Intn(8) {
+	case 0:
+		copy(e[0:4], "FTPR")
+	case 1:
+		copy(e[0:4], []byte{0, 0, 0, 0})
+	case 2:
+		copy(e[0:4], []byte{0xFF, 0xFF, 0xFF, 0xFF})
+	}
+}
+
 type meOpts struct {
 	fptAt      int // -1: no table
 	entries    []part
@@ -729,6 +774,7 @@ func buildME(r *Rng, me []byte, pol byte, o meOpts) {
 				continue
 			}
 			fill(r, e[:32], 2, pol)
+			spice(r, e[:32])
 			binary.LittleEndian.PutUint32(e[8:], p.off)
 			binary.LittleEndian.PutUint32(e[12:], p.length)
 		}
@@ -747,6 +793,7 @@ func putTable(r *Rng, me []byte, off int, entries []part, pol byte) {
 	for k, p := range entries {
 		e := h[32+32*k:]
 		fill(r, e[:32], 2, pol)
+		spice(r, e[:32])
 		binary.LittleEndian.PutUint32(e[8:], p.off)
 		binary.LittleEndian.PutUint32(e[12:], p.length)
 	}
@@ -1038,6 +1085,32 @@ func genImage(r *Rng, class int) (img []byte, pol byte) {
 		o.fptAt = r.Pick(16, 16, 16, 0, 0x100)
 		ne := r.Pick(0, 1, 1, 2, 3, 5, 8)
 		limitEnd := len(me)
+		// "in some cases, it appears somewhere else in the ME region": a table anywhere, also
+		// behind the first block and at odd offsets; partitions may then lie before it
+		far := r.Chance(1, 5)
+		if far {
+			room := limitEnd - 32 - 32*ne
+			switch r.Intn(4) {
+			case 0: // in a later block
+				if meBlocks >= 2 {
+					o.fptAt = blk*r.Range(1, meBlocks-1) + r.Pick(0, 16, 0x10*r.Intn(64), r.Intn(0x800))
+				}
+			case 1: // across a block boundary
+				if meBlocks >= 2 {
+					o.fptAt = blk*r.Range(1, meBlocks-1) - r.Pick(1, 3, 4, 8, 31, 32+32*ne-1)
+				}
+			case 2: // the very end of the region
+				o.fptAt = room - r.Pick(0, 0, 1, 16)
+			default:
+				o.fptAt = r.Range(0, room)
+			}
+			if o.fptAt > room {
+				o.fptAt = room
+			}
+			if o.fptAt < 0 {
+				o.fptAt = 16
+			}
+		}
 		// choose where the last partition ends
 		endAt := 0
 		switch r.Intn(5) {
@@ -1071,6 +1144,9 @@ func genImage(r *Rng, class int) (img []byte, pol byte) {
 				p = part{0xffffffff, uint32(r.U64())} // unused
 			default:
 				lo := tableEnd + r.Intn(endAt-tableEnd+1)
+				if far && r.Bool() { // before the table
+					lo = 1 + r.Intn(endAt)
+				}
 				if lo == 0 {
 					lo = 1
 				}
@@ -1100,11 +1176,18 @@ func genImage(r *Rng, class int) (img []byte, pol byte) {
 				lo += r.Intn(endAt - lo)
 			}
 			o.entries[k] = part{uint32(lo), uint32(endAt - lo)}
+			if r.Chance(1, 8) && endAt > 0 {
+				// an empty partition is the last thing in the region: its end counts like any other
+				o.entries[k] = part{uint32(endAt), 0}
+			}
 		}
 		if (class == 0 || class == 3) && meBlocks >= 2 && r.Chance(1, 12) {
 			// a long table whose unused entries are erased: the table itself reaches into the
 			// space tighten_me frees (the saved file then has no parsable table any more)
 			ne = r.Range(100, 220)
+			if o.fptAt+32+32*100 > limitEnd { // a table far up in the region has no room for that
+				o.fptAt = 16
+			}
 			if o.fptAt+32+32*ne > limitEnd {
 				ne = (limitEnd - o.fptAt - 32) / 32
 			}
@@ -1132,7 +1215,18 @@ func genImage(r *Rng, class int) (img []byte, pol byte) {
 				o.entries = append(o.entries, part{})
 				ne = 1
 			}
-			o.entries[r.Intn(ne)] = part{uint32(r.Range(1, limitEnd)), uint32(limitEnd + r.Pick(1, 4096, 0x7fffffff, 0xffffffff))}
+			k := r.Intn(ne)
+			o.entries[k] = part{uint32(r.Range(1, limitEnd)), uint32(limitEnd + r.Pick(1, 4096, 0x7fffffff, 0xffffffff))}
+			switch r.Intn(5) {
+			case 0: // Offset + Length is 2^32 or more: the sum must not be taken in 32 bits
+				off := uint32(r.Range(1, limitEnd))
+				o.entries[k] = part{off, uint32((1 << 32) - uint64(off) + uint64(r.Intn(int(off))))}
+			case 1:
+				o.entries[k] = part{uint32(r.Range(1, limitEnd)), 0xffffffff}
+			case 2:
+				off := 0xffffffff - uint32(r.Intn(0x1000)) - 1
+				o.entries[k] = part{off, uint32(r.Pick(0, 1, 0x1000, 0x2000, limitEnd))}
+			}
 		case 5: // no table
 			o.fptAt = -1
 			if r.Bool() {
@@ -1209,6 +1303,11 @@ func gen(r *Rng, tier string, emit Emit) {
 	}
 	for it := 0; it < n; it++ {
 		rr := r.Fork(uint64(it))
+		if it%52 == 7 { // a few images of realistic size (oracle only)
+			img, pol := genBig(rr)
+			emit("P", "p_tighten", N(uint64(pol)), encImg(img))
+			continue
+		}
 		class := rr.Pick(0, 0, 0, 0, 0, 0, 1, 2, 3, 3, 4, 5, 6, 7, 8, 9, 9)
 		img, pol := genImage(rr, class)
 		e := encImg(img)
@@ -1216,6 +1315,7 @@ func gen(r *Rng, tier string, emit Emit) {
 		emit("C", "tighten", N(uint64(rr.Pick(1, 1, 2))), e)
 		emit("C", "tighten", "0", e)
 		emit("P", "p_tighten", N(uint64(pol)), e)
+		emit("P", "p_mix", N(uint64(pol)), N(rr.U64()), e)
 		if rr.Chance(1, 2) {
 			m := encImg(mutate(rr, img))
 			emit("C", "parse", m)
@@ -1229,5 +1329,6 @@ func main() {
 	Register("parse", opParse)
 	Register("tighten", opTighten)
 	Register("p_tighten", pTighten)
+	Register("p_mix", pMix)
 	Main(gen)
 }
